@@ -1,6 +1,7 @@
 package main
 
 import (
+	"os"
 	"encoding/json"
 	"flag"
 	"fmt"
@@ -255,6 +256,78 @@ func cmdLexicalMutants(args []string) error {
 	return w.Close()
 }
 
+// replay-one: the observations of ONE recorded text (replay file of C20): kind "syntax" carries the token kinds, positions
+// and lengths the generator printed; kind "front-end" only the text.
+func cmdReplayOne(args []string) error {
+	fs := flag.NewFlagSet("replay-one", flag.ContinueOnError)
+	in := fs.String("in", "", "replay file")
+	out := fs.String("out", "", "")
+	if err := fs.Parse(args); err != nil {
+		return err
+	}
+	var rp struct {
+		Kind  string   `json:"kind"`
+		Text  string   `json:"text"`
+		Kinds []string `json:"kinds"`
+		Pos   [][]int  `json:"pos"`
+		Lens  []int    `json:"lens"`
+	}
+	data, err := os.ReadFile(*in)
+	if err != nil {
+		return err
+	}
+	if err := json.Unmarshal(data, &rp); err != nil {
+		return err
+	}
+	w, err := newNDWriter(*out)
+	if err != nil {
+		return err
+	}
+	if rp.Kind == "front-end" {
+		if err := w.Write(frontRec("replay", rp.Text)); err != nil {
+			return err
+		}
+		return w.Close()
+	}
+	text := rp.Text
+	m := Mutant{ID: "replay", Mut: "replay", Text: text, Kinds: rp.Kinds, Pos: rp.Pos, Lens: rp.Lens}
+	if m.Kinds == nil {
+		m.Kinds = []string{}
+	}
+	if m.Pos == nil {
+		m.Pos = [][]int{}
+	}
+	if m.Lens == nil {
+		m.Lens = []int{}
+	}
+	m.P = observe(func() error {
+		p, err := ebnfparser.New("t.ebnf", strings.NewReader(text))
+		if err != nil {
+			return err
+		}
+		return p.Parse(nil, nil)
+	})
+	m.A = observe(func() error {
+		g, err := ebnfast.Parse("t.ebnf", strings.NewReader(text))
+		if err == nil && g == nil {
+			return fmt.Errorf("nil tree without error")
+		}
+		return err
+	})
+	m.S = observe(func() error {
+		s, err := spec.Parse("t.ebnf", strings.NewReader(text))
+		if err == nil && s == nil {
+			return fmt.Errorf("nil result without error")
+		}
+		return err
+	})
+	if err := w.Write(m); err != nil {
+		return err
+	}
+	return w.Close()
+}
+
 func init() {
 	commands["lexical-mutants"] = cmdLexicalMutants
+	commands["replay-one"] = cmdReplayOne
 }
